@@ -276,6 +276,11 @@ def run(spec, ctx):
         for i in range(spec["n"]):
             names = r.sample(["a", "b", "c", "d", "1", "k0", "é", "a b", "'", "and"], r.randint(2, 5))
             strings = ["a", "b", "ab", "xaby", "", "v1", "1"]
+            if r.random() < 0.3:
+                # string literals that need quoting and escaping, and text that merely LOOKS like an escape (a backslash as
+                # such followed by u, D, 8 ...): the comparison is between strings, whatever they look like
+                strings = strings + r.sample(gen.NAMES_QUOTE + ["\\\\uD83D", "\\uDE00", "\\uD83D\\uDE00x", "\u00e9", "\U0001f600", "a\tb", "\u2028", "\ud83d"], 3)
+                ctx.count("cases_with_string_literals_from_the_hostile_pool")
             fg = gen.FilterGen(r, names, max_depth=spec["depth"], strings=strings)
             expr = fg.logical()
             doc = gen.filter_doc(r, names, strings + [w for w in fg.witnesses if "\n" not in w and "\r" not in w])
